@@ -23,7 +23,7 @@ import struct
 from .. import AnalysisError
 from ..absint import (Interp, State, SeqV, IntV, BoolV, ObjV, OpaqueV, StubV, NoneV, NONE, TupleV, EnumV, Out)
 from ..linarith import LinExpr, le, lt, ge, gt, eq, entails, infeasible_cached
-from ..common import module_dict_expr, Model, norm, try_const, kw, call_name
+from ..common import module_dict_expr, dispatch_table_name, Model, norm, try_const, kw, call_name
 from ..index import Scope, walk_local
 from ..segmodel import SegmentModel
 from .. import rp66_ref as ref
@@ -265,9 +265,9 @@ def r06_3_ident_ascii(chk):
     chk.floor("IDENT emission sites", n_sites, 7)
     # dispatch entries
     sw = ix.get_function("write_struct")
-    d = module_dict_expr(ix, sw.module, "_struct_dict")
+    d = module_dict_expr(ix, sw.module, dispatch_table_name(ix))
     if not isinstance(d, ast.Dict):
-        raise AnalysisError("dispatch table _struct_dict not found")
+        raise AnalysisError("dispatch table of write_struct is not a dict literal / registry")
     table = {norm(k).split(".")[-1]: norm(v) for k, v in zip(d.keys, d.values)}
     chk.info["dispatch"] = table
     chk.require(table.get("IDENT") == (ident.name if ident else None), "R06.3", "dispatch:IDENT",
@@ -410,9 +410,9 @@ def r06_6_totality(chk, it):
     ix = chk.ix
     model = Model(ix)
     sw = ix.get_function("write_struct")
-    d = module_dict_expr(ix, sw.module, "_struct_dict")
+    d = module_dict_expr(ix, sw.module, dispatch_table_name(ix))
     if not isinstance(d, ast.Dict):
-        raise AnalysisError("dispatch table _struct_dict not found")
+        raise AnalysisError("dispatch table of write_struct is not a dict literal / registry")
     dispatch = {norm(k).split(".")[-1] for k in d.keys}
     producible = {}
     for dcl in model.decls:
